@@ -67,11 +67,27 @@ class MafColumnRecord:
         if reset_errors:
             self.validation_errors = list()
 
-        if scheme:
+        def add_errors(error: MafValidationError) -> None:
+            """Adds an error"""
+            self.validation_errors.append(error)
 
-            def add_errors(error: MafValidationError) -> None:
-                """Adds an error"""
-                self.validation_errors.append(error)
+        # a value whose text contains the column or line separator cannot be
+        # written as one field of one line
+        try:
+            text = str(self)
+        except Exception:
+            text = ""  # a value that cannot be rendered is reported elsewhere
+        if any(separator in text for separator in ("\t", "\r", "\n")):
+            add_errors(
+                MafValidationError(
+                    MafValidationErrorType.RECORD_INVALID_COLUMN_VALUE,
+                    "The value of column with name '%s' contains a tab or line "
+                    "break" % self.key,
+                    line_number=line_number,
+                )
+            )
+
+        if scheme:
 
             scheme_column_index: Optional[int] = scheme.column_index(name=self.key)
             scheme_column_class: Optional[MafColumnRecord] = scheme.column_class(
